@@ -1,6 +1,8 @@
 """Property -> scenario registry (tiers: number of runs and wall budget in seconds)."""
 
 REGISTRY = {
+    'C18': {'parts': [{'scenario': 'scenarios.s_auth', 'chunk': 40}],
+            'quick': {'runs': 6000, 'budget': 35}, 'thorough': {'runs': 400000, 'budget': 900}},
     'C13': {'parts': [{'scenario': 'scenarios.s_conn', 'chunk': 20}],
             'quick': {'runs': 4000, 'budget': 40}, 'thorough': {'runs': 300000, 'budget': 900}},
     'C17': {'parts': [{'scenario': 'scenarios.s_sync', 'chunk': 40}],
